@@ -6,6 +6,8 @@ import (
 	"fmt"
 	"sort"
 	"strings"
+	"sync"
+	"sync/atomic"
 	"time"
 
 	pt "github.com/weedbox/pokertable"
@@ -463,13 +465,41 @@ func c17Setting(id string) pt.TableSetting {
 	}
 }
 
+type c17Counts struct {
+	reserved, playerState, firstOpen, autoEnd, errors, wagerActions int64
+}
+
+func (k *c17Counts) callbacks() *pt.TableEngineCallbacks {
+	cb := pt.NewTableEngineCallbacks()
+	cb.OnTablePlayerReserved = func(string, string, *pt.TablePlayerState) { atomic.AddInt64(&k.reserved, 1) }
+	cb.OnTablePlayerStateUpdated = func(string, string, *pt.TablePlayerState) { atomic.AddInt64(&k.playerState, 1) }
+	cb.OnReadyOpenFirstTableGame = func(string, string, int, []*pt.TablePlayerState) { atomic.AddInt64(&k.firstOpen, 1) }
+	cb.OnAutoGameOpenEnd = func(string, string) { atomic.AddInt64(&k.autoEnd, 1) }
+	cb.OnTableErrorUpdated = func(*pt.Table, error) { atomic.AddInt64(&k.errors, 1) }
+	cb.OnGamePlayerActionUpdated = func(a pt.TablePlayerGameAction) {
+		if wagerActs[a.Action] {
+			atomic.AddInt64(&k.wagerActions, 1)
+		}
+	}
+	return cb
+}
+
+func (k *c17Counts) String() string {
+	return fmt.Sprintf("reserved=%d player-state=%d first-open=%d auto-end=%d errors=%d wager-actions=%d", atomic.LoadInt64(&k.reserved), atomic.LoadInt64(&k.playerState), atomic.LoadInt64(&k.firstOpen), atomic.LoadInt64(&k.autoEnd), atomic.LoadInt64(&k.errors), atomic.LoadInt64(&k.wagerActions))
+}
+
 func c17Forwarding(c *h.Ctx) {
 	variant := c.Case % 2
 	opts := pt.NewTableEngineOptions()
 	opts.GameContinueInterval = 0
+	var mgrCounts, bareCounts c17Counts
 	run := func(throughManager bool) (*c17Runner, error) {
 		m := pt.NewManager()
-		if _, err := m.CreateTable(opts, nil, c17Setting("T")); err != nil {
+		var cb *pt.TableEngineCallbacks
+		if throughManager {
+			cb = mgrCounts.callbacks()
+		}
+		if _, err := m.CreateTable(opts, cb, c17Setting("T")); err != nil {
 			return nil, err
 		}
 		eng, err := m.GetTableEngine("T")
@@ -516,6 +546,32 @@ func c17Forwarding(c *h.Ctx) {
 	if len(a.transcript) != len(b.transcript) {
 		c.Violate("C17/manager-and-engine-runs-diverge", fmt.Sprintf("%d steps via the manager, %d via the engine", len(a.transcript), len(b.transcript)), map[string]interface{}{"manager": a.transcript, "engine": b.transcript})
 		return
+	}
+	// third run: a bare engine wired by hand with the same callbacks; a table created through the manager must
+	// produce the same notifications for the same calls
+	{
+		cb := bareCounts.callbacks()
+		eng := pt.NewTableEngine(opts, pt.WithGameBackend(pt.NewNativeGameBackend()))
+		eng.OnTableUpdated(cb.OnTableUpdated)
+		eng.OnTableErrorUpdated(cb.OnTableErrorUpdated)
+		eng.OnTableStateUpdated(cb.OnTableStateUpdated)
+		eng.OnTablePlayerStateUpdated(cb.OnTablePlayerStateUpdated)
+		eng.OnTablePlayerReserved(cb.OnTablePlayerReserved)
+		eng.OnGamePlayerActionUpdated(cb.OnGamePlayerActionUpdated)
+		eng.OnAutoGameOpenEnd(cb.OnAutoGameOpenEnd)
+		eng.OnReadyOpenFirstTableGame(cb.OnReadyOpenFirstTableGame)
+		if _, err := eng.CreateTable(c17Setting("T")); err != nil {
+			c.Inconclusive(err.Error())
+			return
+		}
+		r3 := &c17Runner{eng: eng, a: viaEngine{eng}}
+		c17Scenario(r3, variant)
+		time.Sleep(2 * time.Millisecond)
+		if r3.fail == "" && mgrCounts.String() != bareCounts.String() {
+			c.Violate("C17/manager-created-table-notifies-differently", fmt.Sprintf("same scenario, same callbacks: table created through the manager -> %s; engine wired by hand -> %s", mgrCounts.String(), bareCounts.String()), map[string]interface{}{"manager": a.transcript})
+			return
+		}
+		c.Feature("callback-streams-compared")
 	}
 	used := map[string]bool{}
 	for _, l := range a.transcript {
@@ -633,6 +689,71 @@ func c17Isolation(c *h.Ctx) {
 	c.Sample(map[string]interface{}{"kind": "isolation", "tables": k, "ops": ops, "log_head": log[:minInt(8, len(log))]})
 }
 
+// c17Concurrent: several tables of one manager are driven at the same time, each from its own goroutine; every
+// call must land on the table it was addressed to.
+func c17Concurrent(c *h.Ctx) {
+	m := pt.NewManager()
+	opts := pt.NewTableEngineOptions()
+	opts.GameContinueInterval = 0
+	k := 2 + c.R.Intn(5)
+	engs := make([]pt.TableEngine, k)
+	for i := 0; i < k; i++ {
+		id := fmt.Sprintf("T%d", i)
+		if _, err := m.CreateTable(opts, nil, c17Setting(id)); err != nil {
+			c.Inconclusive(err.Error())
+			return
+		}
+		engs[i], _ = m.GetTableEngine(id)
+	}
+	const rounds = 3000
+	var wg sync.WaitGroup
+	var bad atomic.Value
+	for i := 0; i < k; i++ {
+		wg.Add(1)
+		go func(i int) {
+			defer wg.Done()
+			id := fmt.Sprintf("T%d", i)
+			var sum int64
+			for n := 1; n <= rounds && bad.Load() == nil; n++ {
+				lvl := (i+1)*100000 + n
+				if err := m.UpdateBlind(id, lvl, 0, 0, int64(i+1), int64(2*(i+1))); err != nil {
+					bad.Store(fmt.Sprintf("UpdateBlind(%s) -> %v", id, err))
+					return
+				}
+				if got := engs[i].GetTable().State.BlindState.Level; got != lvl {
+					bad.Store(fmt.Sprintf("UpdateBlind(%s, level %d) did not reach table %s: its level is %d", id, lvl, id, got))
+					return
+				}
+				amt := int64(i + 1)
+				if err := m.PlayerRedeemChips(id, pt.JoinPlayer{PlayerID: "p0", RedeemChips: amt}); err != nil {
+					bad.Store(fmt.Sprintf("PlayerRedeemChips(%s) -> %v", id, err))
+					return
+				}
+				sum += amt
+				if n%64 == 0 {
+					if e, err := m.GetTableEngine(id); err != nil || e != engs[i] {
+						bad.Store(fmt.Sprintf("GetTableEngine(%s) returned another table's engine (err %v)", id, err))
+						return
+					}
+				}
+			}
+			if got := engs[i].GetTable().State.PlayerStates[0].Bankroll; got != 1000+sum && bad.Load() == nil {
+				bad.Store(fmt.Sprintf("table %s: p0 was topped up %d times by %d through the manager (own goroutine only) and holds %d instead of %d", id, rounds, i+1, got, 1000+sum))
+			}
+		}(i)
+	}
+	wg.Wait()
+	if v := bad.Load(); v != nil {
+		c.Violate("C17/call-reached-another-table", fmt.Sprintf("%d tables driven concurrently through one manager: %s", k, v.(string)), nil)
+		return
+	}
+	c.Count("concurrent_manager_calls", int64(2*rounds*k))
+	c.Feature("concurrent-tables")
+	c.Nontrivial()
+	c.FP("concurrent", c.Seed)
+	c.Sample(map[string]interface{}{"kind": "tables of one manager driven concurrently, one goroutine per table", "tables": k, "calls_per_table": 2 * rounds})
+}
+
 // c17NotFound: ids that were never created, whose creation failed, or whose table was closed / released.
 func c17NotFound(c *h.Ctx) {
 	m := pt.NewManager()
@@ -704,7 +825,7 @@ func init() {
 		ID:        "C17",
 		Level:     "exploration",
 		Technique: "runtime differential monitoring: one scripted scenario covering all 22 forwarding methods is executed once through Manager and once through the table's own engine and the transcripts (result, error, id-free projection of the table after every step) are compared; random operations on one of several tables with byte comparison of the others; not-found probes through every method",
-		Rule: "case i mod 4: 0,1 -> forwarding scenario (variant 0: call/raise/all-in/fold line, close at the end; variant 1: limp to the flop, check/bet/fold, release at the end; valid and invalid calls of every method, role-based addressing), 2 -> isolation (2..6 tables created / paused / parked in a running hand, 60 random manager calls), 3 -> ids never created, creation failed, closed, released: every method must return the table-not-found error; " +
+		Rule: "case i mod 8: 0,1,4,5 -> forwarding scenario (also run on a hand-wired engine with the same callbacks: notification counts must match), 6 -> 2..6 tables driven concurrently through the manager (one goroutine per table, 6000 calls each, every call must reach its own table); the others: forwarding scenario (variant 0: call/raise/all-in/fold line, close at the end; variant 1: limp to the flop, check/bet/fold, release at the end; valid and invalid calls of every method, role-based addressing), 2 -> isolation (2..6 tables created / paused / parked in a running hand, 60 random manager calls), 3 -> ids never created, creation failed, closed, released: every method must return the table-not-found error; " +
 			"every case is non-trivial; distinct = kind + variant + seed",
 		Assumptions: []string{"transcripts compare id-free projections (status, counts, sorted bankrolls, blind level, hand phase, pot, last action kind/amount, deadline delta) because the first button and the deck are random", "lines avoid showdowns so that chip movements do not depend on the deck"},
 		Cases:       func(tier string) int { return map[string]int{"quick": 800, "thorough": 8000}[tier] },
@@ -716,15 +837,17 @@ func init() {
 			for _, mname := range c17Methods {
 				f = append(f, "method:"+mname)
 			}
-			return append(f, "forwarding-variant-0", "forwarding-variant-1", "not-found", "isolation:PlayerReserve", "isolation:PlayersLeave", "isolation:UpdateBlind", "isolation:PauseTable")
+			return append(f, "forwarding-variant-0", "forwarding-variant-1", "not-found", "concurrent-tables", "callback-streams-compared", "isolation:PlayerReserve", "isolation:PlayersLeave", "isolation:UpdateBlind", "isolation:PauseTable")
 		},
 		CaseTimeout: 120e9,
 		Run: func(c *h.Ctx) {
-			switch c.Case % 4 {
-			case 0, 1:
+			switch c.Case % 8 {
+			case 0, 1, 4, 5:
 				c17Forwarding(c)
 			case 2:
 				c17Isolation(c)
+			case 6:
+				c17Concurrent(c)
 			default:
 				c17NotFound(c)
 			}
